@@ -69,6 +69,10 @@ def ensure_facts(cfg='default', repo=None, quiet=False):
     if os.path.exists(done) and os.path.exists(os.path.join(d, 'ast.json')):
         info.update(json.load(open(done)))
         info['cached'] = True
+        try:
+            os.utime(d, None)
+        except OSError:
+            pass
         return d, info
     lock = open(os.path.join(CACHE, 'extract.lock'), 'w')
     fcntl.flock(lock, fcntl.LOCK_EX)
@@ -124,7 +128,7 @@ def ensure_facts(cfg='default', repo=None, quiet=False):
         lock.close()
 
 
-def _prune(keep, n=3):
+def _prune(keep, n=6):
     try:
         ds = sorted((os.path.getmtime(os.path.join(FACTS, x)), x) for x in os.listdir(FACTS))
     except OSError:
